@@ -127,6 +127,7 @@ func goLiteral(t Term, model map[string]string) (string, bool) {
 
 func (r *Run) tryReplay(o *Obligation, rf *ReplayFile) {
 	if o.fc == nil {
+		r.tryTableReplay(o, rf)
 		return
 	}
 	// <func>.<label>.tmpl (label = any substring of the obligation name) is preferred over <func>.tmpl
@@ -246,4 +247,42 @@ func cmdReplay(args []string) int {
 	}
 	fmt.Println("replay: test passed (violation not reproduced on this tree)")
 	return 0
+}
+
+// tryTableReplay: a table obligation named table/<family>[<arg>] can be replayed by the template
+// replay_templates/table.<family with / as _>.tmpl, which receives the bracketed argument as {{.Arg}}.
+func (r *Run) tryTableReplay(o *Obligation, rf *ReplayFile) {
+	name := strings.TrimPrefix(o.Name, "table/")
+	i, j := strings.Index(name, "["), strings.LastIndex(name, "]")
+	if i < 0 || j < i {
+		return
+	}
+	family, arg := name[:i], name[i+1:j]
+	tb, err := os.ReadFile(filepath.Join(r.Out, "replay_templates", "table."+strings.ReplaceAll(family, "/", "_")+".tmpl"))
+	if err != nil {
+		return
+	}
+	for _, line := range strings.Split(string(tb), "\n") {
+		if strings.HasPrefix(line, "//govc:pkgdir ") {
+			rf.PkgDir = strings.TrimSpace(strings.TrimPrefix(line, "//govc:pkgdir "))
+		}
+	}
+	tm, err := template.New("replay").Option("missingkey=error").Parse(string(tb))
+	if err != nil {
+		rf.Note = "replay template does not parse: " + err.Error()
+		return
+	}
+	var buf bytes.Buffer
+	if err := tm.Execute(&buf, map[string]any{"Obligation": o.Name, "Arg": arg, "ArgQuoted": strconv.Quote(arg), "Detail": o.Output}); err != nil {
+		rf.Note = err.Error()
+		return
+	}
+	rf.Inputs = map[string]string{"arg": arg}
+	rf.TestSource = buf.String()
+	out, failed := runReplayTest(r.Repo, rf.PkgDir, rf.TestSource)
+	rf.TestOutput = out
+	rf.Reproduced = failed
+	if !failed {
+		rf.Note = "replay test did not fail on the real code"
+	}
 }
